@@ -16,7 +16,9 @@ RULE = ("Coq: Properties/C14.v over Types.v (executable mirror of is_subtype). D
         "triple of the exhaustive set (bitset closure) and on sampled depth-3 triples, Any top / NoValue bottom "
         "(both directions), and the variance laws (answer on two composite types = the documented combination "
         "of the implementation's own answers on their components). A pair counts as non-trivial when the two types "
-        "are distinct composites or the answer is `true` between distinct types.")
+        "are distinct composites or the answer is `true` between distinct types. Runtime use: values of 20 known runtime types "
+        "(atoms, lists, tuples, Option/Result, annotated closures incl. higher-order) bound to lets hinted with 26 types on the "
+        "real interpreter; acceptance must equal the implementation's own is_subtype answer.")
 META = {
     "technique": "Coq proof over an executable model of is_subtype + exhaustive differential execution against the real function",
     "level_text": ("Coq theorems (unbounded, all types): sub_refl (every type), sub_trans (well-formed types w.r.t. any "
@@ -434,6 +436,51 @@ def expected_from_components(a, b, look):
     return None
 
 
+def runtime_stage(ctx, exe, R):
+    """The property speaks of the relation `the checker and the runtime use`: the runtime applies it in check_type
+    (hinted let, parameter, return, field). Values of known runtime types are bound to hinted lets on the real
+    interpreter; acceptance must be exactly the implementation's own is_subtype answer (hook) for
+    (type of the value, hint), which the exhaustive stage ties to the proved model."""
+    from vplib import oracle
+    opt = lambda t: user("Option", t)
+    lst = lambda t: user("List", t)
+    res = lambda a, b: user("Result", a, b)
+    f_ii, f_is, f_si = fun([INT], INT), fun([INT], STRING), fun([STRING], INT)
+    f_0i, f_iib = fun([], INT), fun([INT, STRING], BOOL)
+    f_hi = fun([f_ii], INT)
+    values = [("1", INT), ('"s"', STRING), ("True", BOOL), ("[1]", lst(INT)), ("[]", lst(NOVALUE)), ('(1, "a")', tup(INT, STRING)),
+              ("()", tup()), ("Some(1)", opt(INT)), ("None", opt(NOVALUE)), ("Ok(1)", res(INT, NOVALUE)), ('Err("e")', res(NOVALUE, STRING)),
+              ("fun(x: Int): Int { x }", f_ii), ('fun(x: Int): String { "r" }', f_is), ("fun(x: String): Int { 1 }", f_si),
+              ("fun(): Int { 1 }", f_0i), ("fun(x: Int, y: String): Bool { True }", f_iib),
+              ("fun(g: Fun<(Int), Int>): Int { g(1) }", f_hi), ("[fun(x: Int): Int { x }]", lst(f_ii)),
+              ("Some(fun(x: Int): String { \"r\" })", opt(f_is)), ("(fun(x: Int): Int { x }, 1)", tup(f_ii, INT))]
+    hints = [INT, STRING, BOOL, UNIT, lst(INT), lst(STRING), tup(INT, STRING), tup(INT, INT), tup(), opt(INT), opt(STRING),
+             res(INT, STRING), f_ii, f_is, f_si, f_0i, f_iib, fun([INT, INT], INT), f_hi, fun([f_is], INT), lst(f_ii), lst(f_is),
+             opt(f_is), opt(f_ii), tup(f_ii, INT), tup(f_si, INT)]
+    cases = [(vs, vt, h) for (vs, vt) in values for h in hints]
+    want = R.subtype([(vt, h) for (vs, vt, h) in cases])
+    got = oracle.batch(exe, [{"op": "run", "src": "let v: %s = %s\nprintln(\"accepted\")\n" % (show(h), vs), "tick_limit": 10000}
+                             for (vs, vt, h) in cases], timeout=600)
+    for (vs, vt, h), w, g in zip(cases, want, got):
+        outs = g.get("outcomes") or [{}]
+        o = outs[0]
+        if o.get("kind") == "ok":
+            acc = True
+        elif o.get("kind") == "exception" and "Expected" in (o.get("message") or ""):
+            acc = False
+        else:
+            ctx.stat("runtime probe: other outcome")
+            continue
+        ctx.case({"value": vs, "hint": show(h)}, vt[0] in ("fun", "tuple") or bool(vt[3] if vt[0] == "user" else ()))
+        ctx.stat("runtime probe %s" % ("accepted" if acc else "rejected"))
+        if w is not None and acc != w:
+            limited_violation(ctx, "C14:runtime-check-differs-from-is_subtype:%s" % ("accepts" if acc else "rejects"),
+                              "the runtime %s `let v: %s = %s` but is_subtype(%s, %s) is %s"
+                              % ("accepts" if acc else "rejects", show(h), vs, show(vt), show(h), w),
+                              {"input": "let v: %s = %s" % (show(h), vs), "value_type": show(vt), "hint": show(h),
+                               "is_subtype": w, "runtime_accepts": acc, "cli_command": "garden run <file with the input>"})
+
+
 def run(ctx):
     ctx.trusted = [
         "Coq 8.16.1 kernel (coqc); vm_compute only in closed examples / counterexamples",
@@ -448,6 +495,8 @@ def run(ctx):
         return
     rng = ctx.rng
     R = Runner(ctx, exe, mdl)
+
+    runtime_stage(ctx, exe, R)
 
     # ---- 1. exhaustive square ---------------------------------------------------------
     S = exhaustive_set(ctx)
